@@ -138,6 +138,8 @@ macro_rules! total {
         #[kani::stub(crate::reader::AseReader::unzip, crate::vklib::stub_unzip_identity)]
         #[kani::stub(std::hash::RandomState::new, crate::vklib::fixed_random_state)]
         #[kani::stub(std::collections::HashMap::insert, crate::vklib::hm_insert)]
+        #[kani::stub(std::collections::HashMap::with_hasher, crate::vklib::hm_with_hasher)]
+#[kani::stub(std::collections::HashMap::with_hasher, crate::vklib::hm_with_hasher)]
         #[kani::stub(std::collections::HashMap::len, crate::vklib::hm_len)]
         fn $name() {
             let mut buf: [u8; $n] = sym_bytes();
